@@ -237,3 +237,17 @@ GET_CONTRACT (term_get_c, terms_vlo)
 GET_CONTRACT (nonterm_get_c, nonterms_vlo)
 void h_get (void)
 { int n; struct symb *r; _Bool a, b; world (); if (a) r = symb_get (n); else if (b) r = term_get (n); else r = nonterm_get (n); if (r != NULL) VACUITY_CANARY_N ("element"); else VACUITY_CANARY_N ("outside"); }
+
+/* ---- T.find.repr: symb_find_by_repr asks the NAME table, without reservation, with a key that carries the name; the answer is what the slot holds ---- */
+hash_table_entry_t *lookup_slot_c (hash_table_t htab, hash_table_entry_t element, int reserve)
+__CPROVER_requires (reserve == 0 && htab == symbs_ptr->repr_to_symb_tab && ((const struct symb *) element)->repr == gh_name)
+__CPROVER_assigns (gh_slot_r)
+__CPROVER_ensures (__CPROVER_is_fresh (__CPROVER_return_value, sizeof (hash_table_entry_t)))
+__CPROVER_ensures (__CPROVER_pointer_in_range_dfcc (__CPROVER_return_value, gh_slot_r, __CPROVER_return_value))
+;
+struct symb *find_repr_real_c (const char *repr)
+__CPROVER_requires (symbs_ptr != NULL && repr == gh_name)
+__CPROVER_assigns (gh_slot_r)
+__CPROVER_ensures (__CPROVER_return_value == (struct symb *) *gh_slot_r)
+;
+void h_find_repr (void) { struct symb *r; world (); r = symb_find_by_repr (gh_name); if (r != NULL) VACUITY_CANARY_N ("found"); else VACUITY_CANARY_N ("not found"); }
